@@ -86,6 +86,19 @@ export function* generate({ tier, seed }) {
     const c = buildLoop(host, ctx, vs);
     yield { gid: `C11-loop-${li++}`, src: c.src, syntax: 'jsx', spec: c.spec, feature: `loop|${host}|${ctx}|${vs}`, variants: [true, false].map((e, k) => ({ vid: `v${k}`, options: { enableObjectSlots: e, optimize: k === 0 } })) };
   }
+  // one module, a native tag and a member tag with the same last segment (both orders): each keeps its own laziness
+  let ti = 0;
+  for (const seg of ['button', 'div', 'span', 'input']) for (const order of ['nativeFirst', 'memberFirst']) for (const o of [OPTS[0], OPTS[5], OPTS[10], OPTS[15]]) {
+    const b = new ModuleBuilder();
+    b.importNs('probe:ns', 'ns0');
+    const f1 = b.fnGlobal({ k: 'str', v: 'c1' }), f2 = b.fnGlobal({ k: 'sent' }), f3 = b.fnGlobal({ k: 'str', v: 'c3' }), f4 = b.fnGlobal({ k: 'sent' });
+    const kids = (x, y) => [{ ...C.expr(b.leaf(`${x}()`), `${x}()`), shape: 'call' }, { ...C.expr(b.leaf(`${y}()`), `${y}()`), shape: 'call' }];
+    const nat = { tag: { kind: 'html', name: seg, src: seg }, attrs: [], children: seg === 'input' ? [] : kids(f1, f2), selfClose: seg === 'input' };
+    const mem = { tag: { kind: 'member', src: `ns0.${seg}`, i: b.leaf(`ns0.${seg}`) }, attrs: [], children: kids(f3, f4) };
+    const first = order === 'nativeFirst' ? nat : mem, second = order === 'nativeFirst' ? mem : nat;
+    b.addThunk('t0', renderElement(first)); b.addThunk('t1', renderElement(second));
+    yield { gid: `C11-two-${ti++}`, src: b.source(), syntax: 'jsx', spec: { thunks: [{ name: 't0', el: first }, { name: 't1', el: second }], env: b.env, ctx: 'arrowExpr' }, feature: `twoTags|${seg}|${order}`, variants: [{ vid: 'v0', options: o }] };
+  }
   for (let i = 0; i < n; i++) {
     const c = rng.bool(0.12) ? buildModelCase(rng) : build(rng);
     if (!c) continue;
@@ -125,8 +138,8 @@ export async function check(group, records) {
     if (!rec || rec.status !== 'ok') { out.push(inconclusive({ ...base, reason: `transform status ${rec && rec.status}` })); continue; }
     if (rec.n_err > 0) { out.push(violated({ ...base, oracle: 'no-diagnostic-on-valid-input', sig: `C11/unexpected-diagnostic/${short(rec.diags[0].msg, 50)}`, detail: rec.diags })); continue; }
     if (spec.loop) { out.push(await checkLoopVariant('C11', spec, rec, v, base)); continue; }
-    const live = (r) => {
-      const e = r.thunks[0];
+    const liveOne = (r, ti) => {
+      const e = r.thunks[ti];
       if (e.B.error) return inconclusive({ ...base, reason: 'reference failed: ' + short(e.B.error) });
       if (e.A.error) return violated({ ...base, oracle: 'thunk-evaluates', sig: `C11/runtime-error/${e.A.error.name}`, detail: e.A.error });
       const ta = e.A.trace, tb = e.B.trace;
@@ -141,7 +154,7 @@ export async function check(group, records) {
       // 2. source order among plain attribute / spread / child expressions
       const opts = effectiveOptions(v.options);
       const leaves = spec.leafSrcs ?? [];
-      const ordered = orderedProbes(spec.thunks[0].el, r.leafText, opts);
+      const ordered = orderedProbes(spec.thunks[ti].el, r.leafText, opts);
       const proj = (t) => t.filter((x) => { const m = x.match(/^(?:read|call|get|set|write) ([gfm]\d+)/); return m && ordered.has(m[1]); });
       const oa = proj(ta), ob = proj(tb);
       if (oa.join('\n') !== ob.join('\n')) {
@@ -156,6 +169,7 @@ export async function check(group, records) {
       const slotCalls = e.A.slotEvents.filter((x) => ['read', 'call', 'get'].includes(x.k)).length;
       return held({ ...base, events: { creation_probe_events: ta.length, ordered_probe_events: oa.length, slot_invocation_probe_events: slotCalls }, shape: short(ta, 120) });
     };
+    const live = (r) => { let last; for (let ti = 0; ti < spec.thunks.length; ti++) { last = liveOne(r, ti); if (last.verdict !== 'held') return last; } return last; };
     const r = await evalSemantic(spec, rec, v.options, { live: (res) => { res.leafText = res.ns.L.map((f) => String(f)); return live(res); } });
     if (r.error) {
       const harness = ['HarnessUnknownModule', 'HarnessError', 'MockUnimplemented'].includes(r.error.name) || r.error.phase === 'exec-declined';
